@@ -203,7 +203,13 @@ def run(ctx):
         for u in three + three_more:
             jobs.append(("call", dict(module="harness.units", func="run_twin", args=dict({k: v for k, v in a.items() if k != "tolq"}, u=u))))
             tags.append((label, u))
+    # history: ONE options object re-used for a second solve in other units; the first solution observed before and after
+    hist_cases = [dict(u1=REF, u2=[-9, -6, -9])] + ([] if ctx.quick else [dict(u1=[-9, 0, -3], u2=REF), dict(u1=REF, u2=[-6, -6, -3], kind="barhole")])
+    for hc in hist_cases:
+        jobs.append(("call", dict(module="harness.units", func="history_twin", args=hc)))
     runs = rf.replay_all(ctx, jobs)
+    hist = runs[len(tags):]
+    runs = runs[: len(tags)]
     failed = [(tag, r_["error"]) for tag, r_ in zip(tags, runs) if "error" in r_]
     if failed and len(failed) == len(runs) and not ctx.violations:
         raise core.MachineryFailure(f"C08: every run failed: {failed[0]}")
@@ -245,6 +251,31 @@ def run(ctx):
         ttr.append({"tol": a["tolq"], "minruns": len(mine), "ev": ev, "label": label})
         ctx.sample({"family": label, "runs": [units.unit_names(u) for u, _ in mine], "frames": [fr["step"] for fr in refrun["frames"]],
                     "scales": scale, "tolerance_quanta": a["tolq"], "quantum": "1e-6 of the scale"}, limit=8)
+    for hc, h in zip(hist_cases, hist):
+        first = h["runs"]["first solution, before"]
+        ev, ev_reload = [], []
+        for rid, o in h["runs"].items():
+            reload_ = "reloaded" in rid
+            for qn, v in o.items():
+                base = qn.split(" from ")[0]
+                sc = max(1e-300, max(abs(x) for x in first[base]))
+                e = {"run": rid + (" (with_units=False)" if " from " in qn else ""), "key": base,
+                     "q": [int(max(-2e9, min(2e9, round(x / sc * Q)))) if x == x else 2 * 10 ** 9 for x in v]}
+                if reload_ or rid == "first solution, before":
+                    ev_reload.append(e)
+                if not reload_:
+                    ev.append(e)
+        ev.append({"run": "the unit system the first problem was stated in", "key": "unit labels of the first solution", "q": h["expected_first"]})
+        ev_reload.append(ev[-1])
+        for rid, lab in h["first_labels"].items():
+            (ev_reload if "reloaded" in rid else ev).append({"run": rid, "key": "unit labels of the first solution", "q": lab})
+        ev.append({"run": "the unit system the second problem was stated in", "key": "unit labels of the second solution", "q": h["expected_second"]})
+        ev.append({"run": "second solution", "key": "unit labels of the second solution", "q": h["second_labels"]})
+        label = f"history/one options object: {'/'.join(units.unit_names(hc['u1']))} then {'/'.join(units.unit_names(hc['u2']))}"
+        ttr.append({"tol": 5, "minruns": 4, "ev": ev, "label": label})
+        # kept apart (own key): the first solution written with to_hdf5 AFTER the options object was re-used, and read back
+        ttr.append({"tol": 5, "minruns": 3, "ev": ev_reload, "label": label + " / saved after the edit and reloaded"})
+        ctx.note_case((label,), True)
     acc = twin.validate_twin(ctx, ttr, "C08")
     if acc:
         n = sorted(acc)[0]
